@@ -67,6 +67,22 @@ def gcsUpload (pfx : List Char) (u : Option Bytes) (zstd : Bool) : Option (List 
   | some x => some (gcsKey pfx x zstd)
   | none => none
 
+/-! ### Reading the draw from a source that may return short reads
+
+`crypto/rand.Read` is `io.ReadFull` over `rand.Reader`: it keeps calling `Read` until the buffer is
+full. `chunks` are the byte strings successive `Read` calls deliver (any sizes ≥ 0). -/
+
+/-- `io.ReadFull(reader, buf[:n])` over the successive read results; `none` = the source ran dry. -/
+def readFull : List Bytes → Nat → Option Bytes
+  | [], n => if n = 0 then some [] else none
+  | c :: rest, n =>
+    if n ≤ c.length then some (c.take n)
+    else (readFull rest (n - c.length)).map (c ++ ·)
+
+/-- `generateUUID()` over a chunked entropy source. -/
+def generateUUIDFrom (chunks : List Bytes) : Option (List Char) :=
+  (readFull chunks 16).map generateUUID
+
 /-- Decoder used to state that formatting loses nothing: drop the dashes, read hex pairs. -/
 def unformat (s : List Char) : Option Bytes := bytesOfHexAux (s.filter (· != '-'))
 
